@@ -6,6 +6,7 @@ import (
 	"fmt"
 	"go/constant"
 	"go/types"
+	"regexp"
 	"strings"
 
 	"golang.org/x/tools/go/ssa"
@@ -20,6 +21,7 @@ type SpecEnv struct {
 	resolve      func(name string) (Term, *Loc, bool) // local variable resolver (loop invariants)
 	nq           int
 	allocOld     string // alloc counter of the old state (for fresh())
+	inPureFacts  bool
 	preferLocals bool
 	paramNames   map[string]bool // loop invariants / call assertions: a reassigned parameter means its current value
 }
@@ -764,7 +766,60 @@ func (e *SpecEnv) pureCall(fn *ssa.Function, recv *Term, args []Term, old bool) 
 	if len(res) == 0 {
 		e.fail("pure function %s has no result", key)
 	}
+	e.pureFacts(c, key, calleeParamNames(fn, c, sig), all, res, fn.Pkg, old)
 	return res[0]
+}
+
+var boundVarRe = regexp.MustCompile(`_q[0-9]+\b`)
+
+// pureFacts: a pure function's postconditions hold for every application of it, also the ones written in contracts.
+// They are added as assumptions for ground applications (arguments without quantifier-bound variables).
+func (e *SpecEnv) pureFacts(c *FnContract, key string, names []string, args []Term, res []Term, pkg *ssa.Package, old bool) {
+	if len(c.Ensures) == 0 || e.inPureFacts {
+		return
+	}
+	for _, a := range args {
+		if boundVarRe.MatchString(a.S) {
+			return
+		}
+	}
+	done := "purefact:" + key + ":" + res[0].S
+	if e.tx.d.seen[done] {
+		return
+	}
+	e.tx.d.seen[done] = true
+	env := &SpecEnv{tx: e.tx, vars: map[string]Term{}, locs: map[string]*Loc{}, cur: e.state(old), old: e.state(old), inPureFacts: true}
+	if pkg != nil {
+		env.pkg = pkg.Pkg
+	} else {
+		env.pkg = e.pkg
+	}
+	for i, n := range names {
+		if i < len(args) {
+			env.vars[n] = args[i]
+		}
+	}
+	for i, r := range res {
+		env.vars[fmt.Sprintf("result%d", i)] = r
+	}
+	if len(res) == 1 {
+		env.vars["result"] = res[0]
+	}
+	pre := []string{}
+	for _, r := range c.Requires {
+		s, err := env.TrBool(r.E)
+		if err != nil {
+			return
+		}
+		pre = append(pre, s)
+	}
+	for _, en := range c.Ensures {
+		s, err := env.TrBool(en.E)
+		if err != nil {
+			continue
+		}
+		e.tx.assume(simp(sand(pre...), s))
+	}
 }
 
 func (e *SpecEnv) method(n *SMethod, old bool) Term {
@@ -796,6 +851,14 @@ func (e *SpecEnv) method(n *SMethod, old bool) Term {
 		sig := m.Type().(*types.Signature)
 		all := append([]Term{recv}, args...)
 		res := e.tx.pureApp(key, c.PureHeap, sig, all, e.state(old).hv)
+		names := c.Params
+		if len(names) == 0 {
+			names = []string{"this"}
+			for i := 0; i < sig.Params().Len(); i++ {
+				names = append(names, sig.Params().At(i).Name())
+			}
+		}
+		e.pureFacts(c, key, names, all, res, nil, old)
 		return res[0]
 	}
 	fn := e.tx.prog.FuncValue(m)
